@@ -275,6 +275,14 @@ func cmdCheck(args []string) {
 		timeout = 60
 		racTier, racCap = 1, int64(3000000)
 	}
+	// work directories left behind by interrupted runs (older than two hours) are removed
+	if ents, err := os.ReadDir(filepath.Join(verifRoot, "work")); err == nil {
+		for _, en := range ents {
+			if info, err := en.Info(); err == nil && strings.HasPrefix(en.Name(), "check-") && time.Since(info.ModTime()) > 2*time.Hour {
+				os.RemoveAll(filepath.Join(verifRoot, "work", en.Name()))
+			}
+		}
+	}
 	workDir := filepath.Join(verifRoot, "work", fmt.Sprintf("check-%s-%d", *prop, os.Getpid()))
 	os.MkdirAll(workDir, 0o755)
 	defer os.RemoveAll(workDir)
